@@ -423,4 +423,34 @@ macro_rules! block_cursor {
     };
 }
 block_cursor!(o13_4_block_cursor_r1_fwd, 1, true);
-block_cursor!(o13_4_block_cursor_r16_bwd, 16, false);
+block_cursor!(o13_4_block_cursor_r16_bwd, 16, false);        // CBMC exceeds 16 GB (64-bit sequences under prefix compression): not run
+
+// the same with sequence numbers and keys of 8 bits (prefix compression between the two entries is still exercised: equal user
+// keys share 1 + 7 leading bytes of the 9-byte key suffix)
+macro_rules! block_cursor_small {
+    ($name:ident, $ri:expr, $fwd:expr) => {
+        #[kani::proof]
+        #[kani::unwind(22)]
+        #[kani::stub(alloc::fmt::format, stub_format)]
+        fn $name() {
+            let (k0, k1, t): (u8, u8, u8) = (kani::any(), kani::any(), kani::any());
+            let (s0, s1, ts): (u8, u8, u8) = (kani::any(), kani::any(), kani::any());
+            let (s0, s1, ts) = (s0 as u64, s1 as u64, ts as u64);
+            let (v0, v1): (u8, u8) = (kani::any(), kani::any());
+            kani::assume(k0 < k1 || (k0 == k1 && s0 > s1));
+            let out = v::block_cursor($ri, &[(k0, s0, true, v0), (k1, s1, true, v1)], (t, ts), $fwd, 1);
+            let ge = |k: u8, s: u64| k > t || (k == t && s <= ts);
+            let pos: usize = if ge(k0, s0) { 0 } else if ge(k1, s1) { 1 } else { 2 };
+            let ents = [(k0, s0, v0), (k1, s1, v1)];
+            assert!(out.len() == 2, "block does not parse");
+            assert!(out[0] == if pos < 2 { Some(ents[pos]) } else { None }, "seek does not land on the first entry >= target");
+            let after: Option<(u8, u64, u8)> = if pos == 2 { None } else if $fwd { if pos + 1 < 2 { Some(ents[pos + 1]) } else { None } } else { if pos == 0 { None } else { Some(ents[pos - 1]) } };
+            assert!(out[1] == after, "the step after the seek does not move to the neighbouring entry");
+            core::mem::forget(out);
+            kani::cover!(true, "end reached");
+        }
+    };
+}
+block_cursor_small!(o13_4_block_small_r16_fwd, 16, true);
+block_cursor_small!(o13_4_block_small_r16_bwd, 16, false);
+block_cursor_small!(o13_4_block_small_r1_bwd, 1, false);
